@@ -12,6 +12,8 @@
 #include <fcppt/impl/codecvt_type.hpp>
 #include <fcppt/optional/object_impl.hpp>
 #include <fcppt/config/external_begin.hpp>
+#include <algorithm>
+#include <cwchar>
 #include <iterator>
 #include <locale>
 #include <string>
@@ -76,15 +78,24 @@ fcppt::optional::object<std::basic_string<Out>> codecvt(
     case std::codecvt_base::error:
       return optional_return_type{};
     case std::codecvt_base::partial:
-      if (written == 0U)
+    {
+      typename buffer_type::size_type const max_length{
+          fcppt::cast::to_unsigned(std::max(conv.max_length(), 1))};
+
+      // If nothing was written although there was room for any single character, the
+      // input ends in an incomplete sequence. Otherwise the output area was too small.
+      if (written == 0U && buf.write_size() >= max_length)
       {
-        return optional_return_type{return_type(buf.begin(), buf.end())};
+        return optional_return_type{};
       }
 
-      buf.resize_write_area(buf.read_size() * 2U);
+      buf.resize_write_area(std::max(buf.read_size(), buf.write_size()) * 2U + max_length);
       continue;
+    }
     case std::codecvt_base::ok:
-      return optional_return_type{return_type(buf.begin(), buf.end())};
+      // An incomplete sequence at the end of the input is kept in the conversion state.
+      return std::mbsinit(&state) != 0 ? optional_return_type{return_type(buf.begin(), buf.end())}
+                                       : optional_return_type{};
     }
 
     return optional_return_type{};
